@@ -78,6 +78,26 @@ def opValid (nq nc : Nat) : XOp Float → Bool
   | .peekAll cbits _ => cbits.length == nq && cbits.all (· < nc)
   | .barrier _ => true
 
+mutual
+partial def anyLib (p : String → List (Param Float) → Bool) : XGate Float → Bool
+  | .lib name ps => p name ps
+  | .ctl g => anyLib p g
+  | .kron a b => anyLib p a || anyLib p b
+  | .comp _ _ ops => anyLibOps p ops
+  | .loop _ _ _ _ ops => anyLibOps p ops
+partial def anyLibOps (p : String → List (Param Float) → Bool) : XOps Float → Bool
+  | .nil => false
+  | .cons g _ rest => anyLib p g || anyLibOps p rest
+end
+
+/-- a NaN / infinite parameter: the circuit has no meaning to preserve -/
+def nonFinite (op : XOp Float) : Bool :=
+  let bad := fun (_ : String) (ps : List (Param Float)) => ps.any fun p => p.value.isNaN || p.value.isInf
+  match op with
+  | .gate g _ => anyLib bad g
+  | .cond _ _ g _ => anyLib bad g
+  | _ => false
+
 def isPeek : XOp Float → Bool
   | .peek _ _ _ | .peekAll _ _ => true
   | _ => false
@@ -144,17 +164,6 @@ def wfTag : CQ1.WfErr → String
   | .bundleOverlap => "bundle-overlap"
   | .zeroIterations _ => "zero-iterations"
 
-mutual
-partial def anyLib (p : String → List (Param Float) → Bool) : XGate Float → Bool
-  | .lib name ps => p name ps
-  | .ctl g => anyLib p g
-  | .kron a b => anyLib p a || anyLib p b
-  | .comp _ _ ops => anyLibOps p ops
-  | .loop _ _ _ _ ops => anyLibOps p ops
-partial def anyLibOps (p : String → List (Param Float) → Bool) : XOps Float → Bool
-  | .nil => false
-  | .cons g _ rest => anyLib p g || anyLibOps p rest
-end
 
 mutual
 /-- a `Loop` inside a `Loop` -/
@@ -254,7 +263,7 @@ def specCheck (line : String) : String :=
       else if !a.startsWith "ok " then "fail bad-answer"
       else if c.ops.any isPeek then "fail not-refused:peek a circuit with a peek was exported"
       else if c.ops.any bitMismatch then "fail not-refused:qubit-bit-mismatch a measurement into a differently numbered bit was exported"
-      else if !valid || c.nq == 0 then "skip"
+      else if !valid || c.nq == 0 || c.ops.any nonFinite then "skip"
       else if c.nq > 3 || (c.ops.map (branchFactor c.nq)).foldl (· * ·) 1 > 256 then "skip"
       else
         match c.ops.mapM toCOp with
